@@ -69,7 +69,9 @@ class Cfg:
         if key not in self._res:
             from . import absval
             if getattr(self, "_du", None) is None: self._du = DefUse(self.body)
-            self._res[key] = absval.sens_reach(self, self._du, [(0, {})], blocked_nodes, blocked_edges) & r
+            if not hasattr(self, "_sg"): self._sg = absval.state_graph(self, self._du)
+            if self._sg is None: self._res[key] = r
+            else: self._res[key] = absval.graph_reach(self._sg, blocked_nodes, blocked_edges) & r
         return self._res[key]
 
     def edge_dominates(self, edge, node):
